@@ -176,6 +176,25 @@ def text_body(cfg):
             nd.name = "n%d" % i
         if rt.by_attr() != "\n".join(pre + "n%d" % x for pre, fill, x in exp_rows):
             return {"why": "by_attr() default attribute", "pv": pv}
+        # the SAME RenderTree object after the tree changed draws the current tree
+        if n >= 2:
+            moved = (s + 1) % n
+            if moved != s and parent[moved] is not None:
+                nodes[moved].parent = None
+                ch2 = [[c for c in cs if c != moved] for cs in children]
+                rows2 = expected_rows(ch2, s, list, None, chars)
+                exp2 = "\n".join(pre + "n%d" % x for pre, fill, x in rows2)
+                if rt.by_attr() != exp2:
+                    return {"why": "by_attr() on the same RenderTree object does not draw the current tree", "pv": pv, "start": s, "moved": moved}
+                exp3 = []
+                for pre, fill, x in rows2:
+                    ls = nodes[x].rep.splitlines() or [""]
+                    exp3.append(pre + ls[0])
+                    exp3.extend(fill + l for l in ls[1:])
+                if str(rt) != "\n".join(exp3):
+                    return {"why": "str() on the same RenderTree object does not draw the current tree", "pv": pv, "start": s, "moved": moved}
+                if [index_of(nodes, r.node) for r in rt] != [x for _, _, x in rows2]:
+                    return {"why": "iteration of the same RenderTree object does not follow the current tree", "pv": pv}
     return True
 
 
